@@ -185,10 +185,10 @@ def mm_case(draw):
             while v >= 0 and v not in mark:
                 v = par[v]
             geno.append(mark[v] if v >= 0 else base)
-    mk = draw(st.sampled_from(["none", "few", "many", "few"]))
+    mk = draw(st.sampled_from(["few", "none", "many", "few", "none"]))
     if mk != "none":
         for j in range(ns):
-            if draw(st.integers(0, 9)) < (2 if mk == "few" else 6):
+            if draw(st.integers(0, 9)) < (2 if mk == "few" else 5):
                 geno[j] = -1
     if all(g < 0 for g in geno):
         geno[draw(st.integers(0, ns - 1))] = 0
@@ -346,10 +346,10 @@ def run_small(case, ctx):
 NT = (">=2 samples and, in some tree of the case: >=3 distinct observed alleles, or a missing observation, or an "
       "internal sample, or >=2 roots, or a fixed ancestral state absent from the data")
 SUBCHECKS = [
-    SubCheck("C20.parsimony", run_mm, strategy=mm_case, quick=6000, thorough=200000, rule=NT,
+    SubCheck("C20.parsimony", run_mm, strategy=mm_case, quick=8000, thorough=240000, rule=NT,
              floors={"missing": 0.2, "missing_internal_sample": 0.04, "missing_unary_sample": 0.01,
                      "internal_sample": 0.2, "multi_root": 0.2, "unary": 0.2, "polytomy": 0.1,
-                     "alleles>=3": 0.1, "anc_fixed": 0.3, "anc_absent_from_data": 0.05,
+                     "alleles>=3": 0.06, "anc_fixed": 0.3, "anc_absent_from_data": 0.05,
                      "allele_index>=32": 0.03, "mutations>=2": 0.2}),
     SubCheck("C20.errors", run_err, strategy=err_case, quick=300, thorough=5000,
              rule="every case exercises one documented error (all missing, allele>=64, bad ancestral state "
